@@ -57,3 +57,50 @@ Theorem C10_fit_preserves : forall T (fitq : qty -> option qty),
   forall g, total T (fst (fit fitq g)) ≡ total T g.
 Proof. exact fit_total. Qed.
 Print Assumptions C10_fit_preserves.
+
+(* ---- GroupedValue (cookware amounts) --------------------------------------
+   [gv_total] is the same summary over the bare values (unit-less bucket and
+   the text counts); [gv_wf]: at most one numeric entry and it comes first.
+   No hypothesis: the `expect` in GroupedValue::add cannot fail. *)
+Theorem C10_cookware : forall g v,
+  exists g', gv_add g v = Done g' /\ gv_total g' ≡ gv_total g ⊕ vcontrib v /\ (gv_wf g -> gv_wf g').
+Proof. exact gv_add_spec. Qed.
+Print Assumptions C10_cookware.
+
+Theorem C10_cookware_merge : forall a b,
+  exists g, gv_merge a b = Done g /\ gv_total g ≡ gv_total a ⊕ gv_total b /\ (gv_wf a -> gv_wf g).
+Proof. exact gv_merge_spec. Qed.
+Print Assumptions C10_cookware_merge.
+
+(* ---- categorize -----------------------------------------------------------
+   [entries c] is everything CategorizedIngredientList::iter shows, each group
+   with its place (Some category | None = the uncategorized rest, name);
+   [rekey inf] sends a listed entry to the place the aisle information gives
+   it; [categorize_conserves T inf l c]: under every place the total shown is
+   the sum of the listed entries sent there.  [synonym_collision inf l]: two
+   listed names are sent to the same (category, common name) - the class of the
+   open finding.  Stated for the code as it is ([fixd] = false). *)
+Theorem C10_categorize : forall T inf l,
+  NoDup (map fst l) -> synonym_collision inf l = false ->
+  exists c, categorize false inf l = Done c /\ Permutation (entries c) (map (rekey inf) l)
+            /\ categorize_conserves T inf l c.
+Proof. exact categorize_conserves_ok. Qed.
+Print Assumptions C10_categorize.
+
+Example C10_categorize_hypotheses_satisfiable :
+  exists inf l, l <> [] /\ NoDup (map fst l) /\ synonym_collision inf l = false /\ cat_dests inf l <> [].
+Proof. exact categorize_hyps_sat. Qed.
+
+(* without the hypothesis the statement is false on the faithful model: the
+   recorded witness (tuna 100 g, chicken of the sea 200 g, one aisle line
+   tuna|chicken of the sea) shows 200 g under canned/tuna instead of 300 g *)
+Definition C10_categorize_full : Prop := forall T inf l,
+  sane T = true -> NoDup (map fst l) ->
+  exists c, categorize false inf l = Done c /\ categorize_conserves T inf l c.
+
+Theorem C10_categorize_refuted :
+  exists T inf l,
+    sane T = true /\ NoDup (map fst l) /\ synonym_collision inf l = true /\
+    exists c, categorize false inf l = Done c /\ ~ categorize_conserves T inf l c.
+Proof. exact categorize_refuted. Qed.
+Print Assumptions C10_categorize_refuted.
